@@ -30,7 +30,9 @@ package main
 //	                        variable only ever assigned literals before), data = anything else; check =
 //	                        SetSize (error returned) | limit-compare | none
 //	frames_unbounded_growth (proto, function, what) of reads without any size: ReadAll(conn),
-//	                        buffer writes / append inside a loop of Unpack or a helper
+//	                        buffer writes / append inside a loop of Unpack or a helper; a loop write
+//	                        dominated by a limit check carries the check as a suffix
+//	                        (`loop:Write:limit-compare`)
 //	frames_raw_read_landmarks  ordered: alloc:const|alloc:data, SetSize:returned|ignored,
 //	                        minus(k|data):returned|ignored (k = literal subtrahend), read:buf|buf[:k]|buf[:data]
 //	                        (io.ReadFull / io.ReadAtLeast / Read and what they fill) in rawProto.readMessage
@@ -648,7 +650,13 @@ func genFrames(r *Repo, l *Lean) {
 				grows = append(grows, frRow(pr.key, fname, "ReadAll"))
 				return
 			case inLoop && (cpLast(ch) == "Write" || cpLast(ch) == "WriteByte" || cpLast(ch) == "WriteString") && len(ch) == 2 && ch[0] != fr.rv:
-				grows = append(grows, frRow(pr.key, fname, "loop:"+cpLast(ch)))
+				// a buffer write in a loop that is dominated by a comparison with the read limit whose
+				// branch returns an error is bounded growth: the row says so
+				what := "loop:" + cpLast(ch)
+				if g := frGuard(fr.fd, frDominators(stack, n), nil); g != "none" {
+					what += ":" + g
+				}
+				grows = append(grows, frRow(pr.key, fname, what))
 				return
 			case inLoop && cpEq(ch, "append"):
 				grows = append(grows, frRow(pr.key, fname, "loop:append"))
